@@ -48,9 +48,14 @@ impl Check for C01 {
         if t.chance(1, 3) {
             let n = prog.blobs.len() + prog.enums.len() + prog.globals.len();
             let mut v: Vec<usize> = (0..n).collect();
-            for i in (1..n).rev() {
-                let j = t.below(i + 1);
-                v.swap(i, j);
+            if t.bool() {
+                // the exact reverse of the generation order: every definition stands above everything it uses
+                v.reverse();
+            } else {
+                for i in (1..n).rev() {
+                    let j = t.below(i + 1);
+                    v.swap(i, j);
+                }
             }
             plan.order = Some(v);
         }
